@@ -21,12 +21,28 @@ COMP = {
     "CO": {"C": 1, "O": 1}, "#CO": {"C": 1, "O": 1}, "H2O": {"H": 2, "O": 1}, "GRAIN0": {"GRAIN": 1}, "GRAIN0-": {"GRAIN": 1},
 }
 POOL = [s for s in COMP if s != "H"]
+# one network with many elements (two-digit element indices) and molecules coupling elements of high index
+BIG_ATOMS = ["He", "C", "N", "O", "F", "Na", "Mg", "Si", "P", "S", "Cl", "Fe"]
+BIG_MOLS = {"HCl": {"H": 1, "Cl": 1}, "CP": {"C": 1, "P": 1}, "SiS": {"Si": 1, "S": 1}, "NaCl": {"Na": 1, "Cl": 1}, "FeO": {"Fe": 1, "O": 1}, "ClO": {"Cl": 1, "O": 1}, "CF+": {"C": 1, "F": 1}, "MgO": {"Mg": 1, "O": 1}, "PN": {"P": 1, "N": 1}, "HF": {"H": 1, "F": 1},
+            # pairs whose element indices read the same when written next to each other ((1,10) / (11,0), (1,11) / (11,1), ...)
+            "CS": {"C": 1, "S": 1}, "ClP": {"Cl": 1, "P": 1}, "ClS": {"Cl": 1, "S": 1}, "ClSi": {"Cl": 1, "Si": 1}, "FS": {"F": 1, "S": 1}}
+BIGSET = ["H"] + BIG_ATOMS + list(BIG_MOLS)
 ALIASES = {"H": "HI", "H+": "HII", "H2": "H2I", "e-": "eM", "E": "EM", "D": "DI", "HD": "HDI", "C": "CI", "O": "OI", "CO": "COI", "#CO": "GCOI", "H2O": "H2OI", "GRAIN0": "GRAIN0I", "GRAIN0-": "GRAIN0M"}
 PRIMES = [Fraction(1), Fraction(2), Fraction(3), Fraction(5, 7), Fraction(11, 13)]
 ABVALS = [Fraction(1), Fraction(2), Fraction(3), Fraction(1, 10**10), Fraction(7, 2)]
 
 
+for _a in BIG_ATOMS:
+    COMP[_a] = {_a: 1}
+    ALIASES[_a] = _a + "I"
+for _m, _c in BIG_MOLS.items():
+    COMP[_m] = dict(_c)
+    ALIASES[_m] = _m.rstrip("+") + ("II" if _m.endswith("+") else "I")
+
+
 def species_sets(tier):
+    yield list(BIGSET)
+    yield ["@linked"] + list(BIGSET)
     kmax = 3 if tier == "quick" else 4
     for k in range(1, kmax + 1):
         for c in itertools.combinations(POOL, k):
